@@ -168,6 +168,13 @@ func cmdCheck(args []string) {
 	evPath := filepath.Join(evDir, *prop+".json")
 	os.MkdirAll(filepath.Dir(evPath), 0o755)
 
+	// the term rewriter is part of the trusted base: differential self-test against raw evaluation on every run
+	stN, stBad := RewriterSelfTest(3000, seed+7)
+	if stBad != "" {
+		fmt.Printf("INCONCLUSIVE property=%s reason=%q\n", *prop, "engine self-test failed (term rewriter): "+stBad)
+		writeInconclusiveEvidence(evPath, *prop, *tier, seed, spec, "engine self-test failed: "+stBad, time.Since(t0).Seconds())
+		os.Exit(0)
+	}
 	harnessDir := filepath.Join(*verifDir, "harness")
 	eng, err := LoadEngine(*repo, harnessDir)
 	if err != nil {
@@ -503,6 +510,9 @@ func cmdCheck(args []string) {
 
 	// ---- evidence ----
 	ev := buildEvidence(*prop, *tier, seed, spec, reports, eng, loadS, time.Since(t0).Seconds(), witOK, witBad, confirmed, unconfirmed, nViolations, knownHit, inconcl, ghostOnly)
+	ev["coverage"].(map[string]interface{})["rewriter_selftest_evaluations"] = stN
+	ev["coverage"].(map[string]interface{})["witnesses_skipped_nondeterministic"] = witNondet
+	ev["coverage"].(map[string]interface{})["witnesses_skipped_uninterpreted"] = witStub
 	eb, _ := json.MarshalIndent(ev, "", " ")
 	os.WriteFile(evPath, eb, 0o644)
 
